@@ -1,4 +1,5 @@
 """C01 -- model coordinates consistent, one metric (G1, D1, I1, U1)."""
+from ..rules import numpy_rules as NPR
 from ..rules import degree_rules as DG
 from ..rules import misc_rules as MI
 from ..rules import dtype_rules as DT
@@ -21,6 +22,7 @@ ENTRIES = [
 
 
 def run(ctx):
+    ctx.do(NPR.rule_putmask1, ["geometry_tools/hyperbolic.py", "geometry_tools/projective.py", "geometry_tools/complex_projective.py", "geometry_tools/utils/core.py"])
     ctx.do(DT.rule_lk4)
     ctx.do(H.rule_g1)
     ctx.do(H.rule_d1)
